@@ -177,3 +177,18 @@ Theorem C01_hist_example :
     ~ (forall a, bfun_of (h_s acache ex_stA) (eref e5) a = bfun_of (h_s acache ex_stA) (eref e7) a).
 Proof. exact ex_canonA. Qed.
 Print Assumptions C01_hist_example.
+
+(* non-vacuity of [hspec] for the quantifier / restrict / substitute calls: instantiated in the
+   state after the 24-call history (slot 1 holds the variable set {x1}, slot 10 the cube
+   x0 /\ ~x2, substitution object 0 was created 10 calls, one collection and one reordering ago) *)
+Theorem C01_hist_example_spec :
+  (exists st', hstep gtA acache ac_get ac_add nil ex_stA (HQuant QExists 21 5 1) = Some st' /\
+               holds acache st' 21 (exists_s (1 :: nil) fA5)) /\
+  (exists st', hstep gtA acache ac_get ac_add nil ex_stA (HRestrict 21 5 10) = Some st' /\
+               holds acache st' 21 (restrict_s ((0, true) :: (2, false) :: nil) fA5)) /\
+  (exists st', hstep gtA acache ac_get ac_add nil ex_stA (HSubst 21 5 0) = Some st' /\
+               length ex_rp = 2 /\
+               holds acache st' 21
+                 (subst_s (map (fun p : nat * ref => (fst p, bfun_of (h_s acache ex_stA) (snd p))) ex_rp) fA5)).
+Proof. exact (conj ex_spec_quant (conj ex_spec_restrict ex_spec_subst)). Qed.
+Print Assumptions C01_hist_example_spec.
